@@ -56,3 +56,408 @@ def unit_mode(inj, scratch):
     inj.append(rel, H('mode.kani.rs'))
     inj.prepend('src/main.rs', '#![cfg_attr(kani, recursion_limit = "512")]')
     return dict(functions=fns, dropped=[])
+
+
+# --------------------------------------------------------------------------------------------------
+# Engine F helpers
+# --------------------------------------------------------------------------------------------------
+FRAG_FILE = 'src/verif_frag.rs'
+FRAG_PRELUDE = '''// GENERATED on every run by /verif/tools/units.py from /repo's working tree. Engine F (DESIGN.md 3.2).
+// Every `frag_*` function body below is text copied verbatim from the anchored location, apart from the
+// identifier->parameter renamings listed in the evidence file.
+#![allow(unused, unused_mut, unused_variables, unused_assignments, dead_code, unreachable_patterns, unused_parens)]
+use crate::operators::{Op, LogicalOp, ArithmeticOp};
+
+pub fn any_op() -> Op {
+    let k: u8 = kani::any();
+    kani::assume(k < 14);
+    match k { 0 => Op::Eq, 1 => Op::Ne, 2 => Op::Eeq, 3 => Op::Ene, 4 => Op::Gt, 5 => Op::Gte, 6 => Op::Lt,
+              7 => Op::Lte, 8 => Op::Rx, 9 => Op::NotRx, 10 => Op::Like, 11 => Op::NotLike, 12 => Op::Between,
+              _ => Op::NotBetween }
+}
+pub fn any_cmp_op() -> Op {
+    let k: u8 = kani::any();
+    kani::assume(k < 8);
+    match k { 0 => Op::Eq, 1 => Op::Ne, 2 => Op::Eeq, 3 => Op::Ene, 4 => Op::Gt, 5 => Op::Gte, 6 => Op::Lt, _ => Op::Lte }
+}
+pub fn any_eq_op() -> Op {
+    let k: u8 = kani::any();
+    kani::assume(k < 4);
+    match k { 0 => Op::Eq, 1 => Op::Ne, 2 => Op::Eeq, _ => Op::Ene }
+}
+pub fn is_cmp_op(op: &Op) -> bool {
+    matches!(op, Op::Eq | Op::Ne | Op::Eeq | Op::Ene | Op::Gt | Op::Gte | Op::Lt | Op::Lte)
+}
+pub fn any_logical() -> LogicalOp { if kani::any() { LogicalOp::And } else { LogicalOp::Or } }
+'''
+
+
+def frag_begin(inj):
+    if FRAG_FILE not in inj.new_files:
+        inj.new_file(FRAG_FILE, FRAG_PRELUDE)
+        inj.append('src/main.rs', '#[cfg(kani)]\nmod verif_frag;')
+        inj.prepend('src/main.rs', '#![cfg_attr(kani, recursion_limit = "512")]')
+
+
+def frag_record(name, file, anchor, original, generated, renamings, dropped):
+    return {'fn': name, 'file': file, 'engine': 'F', 'how': 'fragment extracted by structural anchor: ' + anchor,
+            'original_sha256_16': sha(original), 'generated_sha256_16': sha(generated), 'renamings': renamings,
+            'original_text': original if len(original) < 1500 else original[:1500] + ' ...'}, \
+           f'{name}: dropped {dropped}'
+
+
+def enclosing_if_condition(s, stmt_idx, what):
+    """stmt_idx is the offset of the first statement of an `if COND {` block. Returns COND text."""
+    k = stmt_idx - 1
+    while k >= 0 and s.mask[k].isspace():
+        k -= 1
+    if s.mask[k] != '{':
+        raise AnchorLost(f'{what}: anchored statement is not the first statement of a block')
+    brace = k
+    j = brace - 1
+    depth = 0
+    while j >= 0:
+        ch = s.mask[j]
+        if ch in ')]':
+            depth += 1
+        elif ch in '([':
+            depth -= 1
+        elif ch in '{};' and depth == 0:
+            break
+        j -= 1
+    head = s.mask[j + 1:brace]
+    m = re.match(r'\s*if\s+(.*\S)\s*$', head, flags=re.S)
+    if not m or re.match(r'\s*if\s+let\b', head):
+        raise AnchorLost(f'{what}: enclosing block is not a plain `if COND {{` ({head.strip()[:60]!r})')
+    return s.text[j + 1 + m.start(1):j + 1 + m.end(1)]
+
+
+# --------------------------------------------------------------------------------------------------
+# conforms(): typed comparison arms and the logical block
+# --------------------------------------------------------------------------------------------------
+def _conforms_arm(s, variant):
+    it = s.fn('conforms', impl='Searcher')
+    a, b0, b1 = s.arm(r'VariantType::' + variant, s.body_span(it), what=f'conforms arm VariantType::{variant}')
+    if s.mask[b0] != '{':
+        raise AnchorLost(f'conforms arm {variant} is not a block')
+    return s.text[b0:b1]
+
+
+def unit_cmp(inj, scratch):
+    frag_begin(inj)
+    s = src('src/searcher.rs', scratch)
+    recs, dropped = [], []
+    out = ['pub mod cmp {', 'use super::*;',
+           '#[derive(Clone, Copy)] pub struct TS(pub i64);',
+           'impl TS { pub fn and_utc(self) -> TS { self } pub fn timestamp(self) -> i64 { self.0 } }']
+    # Int
+    t = dedent(_conforms_arm(s, 'Int'))
+    g = replace_exact(t, 'field_value.to_int()', 'p_field', 1)
+    g = replace_exact(g, 'value.to_int()', 'p_value', 1)
+    out.append(f'pub fn frag_cmp_int(op: &Op, p_field: i64, p_value: i64) -> bool {g}')
+    r, d = frag_record('frag_cmp_int', 'src/searcher.rs', 'fn conforms / arm `VariantType::Int => {..}` (whole arm block)',
+                       t, g, ['field_value.to_int() -> p_field', 'value.to_int() -> p_value'],
+                       'Variant::to_int coercion of both operands')
+    recs.append(r); dropped.append(d)
+    # Float
+    t = dedent(_conforms_arm(s, 'Float'))
+    g = replace_exact(t, 'field_value.to_float()', 'p_field', 1)
+    g = replace_exact(g, 'value.to_float()', 'p_value', 1)
+    out.append(f'pub fn frag_cmp_float(op: &Op, p_field: f64, p_value: f64) -> bool {g}')
+    r, d = frag_record('frag_cmp_float', 'src/searcher.rs', 'fn conforms / arm `VariantType::Float => {..}`',
+                       t, g, ['field_value.to_float() -> p_field', 'value.to_float() -> p_value'],
+                       'Variant::to_float coercion of both operands')
+    recs.append(r); dropped.append(d)
+    # Bool
+    t = dedent(_conforms_arm(s, 'Bool'))
+    g = replace_exact(t, 'field_value.to_bool()', 'p_field')
+    g = replace_exact(g, 'value.to_bool()', 'p_value', 1)
+    out.append(f'pub fn frag_cmp_bool(op: &Op, p_field: bool, p_value: bool) -> bool {g}')
+    r, d = frag_record('frag_cmp_bool', 'src/searcher.rs', 'fn conforms / arm `VariantType::Bool => {..}`',
+                       t, g, ['field_value.to_bool() -> p_field', 'value.to_bool() -> p_value'],
+                       'Variant::to_bool coercion of both operands')
+    recs.append(r); dropped.append(d)
+    # DateTime
+    t = dedent(_conforms_arm(s, 'DateTime'))
+    g = replace_exact(t, 'field_value.to_datetime().0', 'TS(p_dt)', 1)
+    g = replace_exact(g, 'value.to_datetime()', '(TS(p_start), TS(p_finish))', 1)
+    out.append(f'pub fn frag_cmp_datetime(op: &Op, p_dt: i64, p_start: i64, p_finish: i64) -> bool {g}')
+    r, d = frag_record('frag_cmp_datetime', 'src/searcher.rs', 'fn conforms / arm `VariantType::DateTime => {..}`',
+                       t, g, ['field_value.to_datetime().0 -> TS(p_dt)', 'value.to_datetime() -> (TS(p_start), TS(p_finish))',
+                              'TS is a shim whose and_utc().timestamp() returns the wrapped i64 (stands for chrono NaiveDateTime)'],
+                       'Variant::to_datetime (parse_datetime, chrono)')
+    recs.append(r); dropped.append(d)
+    out.append(H('frag_cmp.kani.rs'))
+    out.append('}')
+    inj.new_file(FRAG_FILE, '\n'.join(out) + '\n')
+    return dict(functions=recs, dropped=dropped)
+
+
+def unit_logic(inj, scratch):
+    frag_begin(inj)
+    s = src('src/searcher.rs', scratch)
+    it = s.fn('conforms', impl='Searcher')
+    a, o, c = s.block_after(r'if\s+let\s+Some\(ref\s+logical_op\)\s*=\s*expr\.logical_op\s*\{', s.body_span(it),
+                            what='conforms: `if let Some(ref logical_op) = expr.logical_op {`')
+    t = dedent(s.text[o:c + 1])
+    g = replace_exact(t, 'self.conforms(entry, file_info, ', 'frag_eval(', 3)
+    text = f'''pub mod logic {{
+use super::*;
+pub struct FragExpr {{ pub left: Option<bool>, pub right: Option<bool> }}
+pub fn frag_eval(sub: &bool) -> bool {{ *sub }}
+pub fn frag_logic(logical_op: &LogicalOp, expr: &FragExpr) -> bool {{
+    let mut result = false;
+    {g}
+    result
+}}
+{H('frag_logic.kani.rs')}
+}}
+'''
+    inj.new_file(FRAG_FILE, text)
+    r, d = frag_record('frag_logic', 'src/searcher.rs', 'fn conforms / block of `if let Some(ref logical_op) = expr.logical_op`',
+                       t, g, ['self.conforms(entry, file_info, X) -> frag_eval(X) (the truth value of the sub-expression)',
+                              'expr.left / expr.right: Option<Box<Expr>> -> Option<bool>'],
+                       'the recursive evaluation of the children, entry, file_info')
+    return dict(functions=[r], dropped=[d])
+
+
+# --------------------------------------------------------------------------------------------------
+# visit_dir(): depth formula, report gate, descend gate, early-exit gates
+# --------------------------------------------------------------------------------------------------
+def _first_stmt_if_break(s, loop_pat, span, what):
+    a, o, c = s.block_after(loop_pat, span, what=what)
+    body = s.text[o + 1:c]
+    m = re.match(r'\s*if\s+(.*?)\s*\{\s*break;\s*\}', body, flags=re.S)
+    if not m or '{' in m.group(1):
+        raise AnchorLost(f'{what}: first statement of the loop is not `if COND {{ break; }}`')
+    return m.group(1)
+
+
+def _gate_rename(cond):
+    g = cond
+    ren = []
+    for old, new in [('self.is_buffered()', 'p_buffered'), ('self.query.limit', 'p_limit'), ('self.found', 'p_found')]:
+        if old in g:
+            g = g.replace(old, new)
+            ren.append(f'{old} -> {new}')
+    if 'self.' in g:
+        raise AnchorLost(f'early-exit gate mentions state outside (is_buffered, limit, found): {cond!r}')
+    return g, ren
+
+
+def unit_gates(inj, scratch):
+    frag_begin(inj)
+    s = src('src/searcher.rs', scratch)
+    it = s.fn('visit_dir', impl='Searcher')
+    span = s.body_span(it)
+    recs, dropped = [], []
+    # depth formula
+    m1 = s.find_one(r'let\s+base_depth\s*=\s*match\s+root_depth', span, what='visit_dir: let base_depth = match root_depth')
+    m2 = s.find_one(r'let\s+depth\s*=[^;]*;', span, what='visit_dir: let depth = ...;')
+    if not (m1.start() < m2.start()):
+        raise AnchorLost('visit_dir: depth statement precedes base_depth')
+    t = dedent(s.text[m1.start():m2.end()])
+    between = s.mask[m1.start():m2.end()]
+    if between.count(';') != 2:
+        raise AnchorLost('visit_dir: statements between base_depth and depth changed shape')
+    out = ['pub mod gates {', 'use super::*;',
+           f'pub fn frag_depth(canonical_depth: u32, root_depth: u32) -> (u32, u32) {{\n    {t}\n    (base_depth, depth)\n}}']
+    r, d = frag_record('frag_depth', 'src/searcher.rs', 'fn visit_dir / statements `let base_depth = match root_depth {..};` to `let depth = ..;`',
+                       t, t, [], 'canonicalisation of the path (canonical_path, calc_depth are inputs)')
+    recs.append(r); dropped.append(d)
+    # report gate
+    k = s.find_one(r'let\s+checked\s*=\s*self\.check_file\(&entry,\s*&None\)\?;', span, what='visit_dir: let checked = self.check_file(&entry, &None)?;')
+    cond = enclosing_if_condition(s, k.start(), 'visit_dir report gate')
+    out.append(f'pub fn frag_report_gate(min_depth: u32, depth: u32) -> bool {{ {cond} }}')
+    r, d = frag_record('frag_report_gate', 'src/searcher.rs', 'fn visit_dir / condition of the `if` whose block starts with `let checked = self.check_file(&entry, &None)?;`',
+                       cond, cond, [], 'the body of the gate (check_file, archives)')
+    recs.append(r); dropped.append(d)
+    # descend gate
+    k = s.find_one(r'let\s+result\s*=\s*entry\.file_type\(\);', span, what='visit_dir: let result = entry.file_type();')
+    cond = enclosing_if_condition(s, k.start(), 'visit_dir descend gate')
+    out.append(f'pub fn frag_descend_gate(max_depth: u32, depth: u32) -> bool {{ {cond} }}')
+    r, d = frag_record('frag_descend_gate', 'src/searcher.rs', 'fn visit_dir / condition of the `if` whose block starts with `let result = entry.file_type();`',
+                       cond, cond, [], 'the body of the gate (recursion / queueing)')
+    recs.append(r); dropped.append(d)
+    # early-exit gates
+    cond = _first_stmt_if_break(s, r'for\s+entry\s+in\s+entry_list\s*\{', span, 'visit_dir: for entry in entry_list')
+    g, ren = _gate_rename(cond)
+    out.append(f'pub fn frag_exit_dir(p_buffered: bool, p_limit: u32, p_found: u32) -> bool {{ {g} }}')
+    r, d = frag_record('frag_exit_dir', 'src/searcher.rs', 'fn visit_dir / condition of the `if .. { break; }` that is the first statement of `for entry in entry_list`',
+                       cond, g, ren, 'the loop')
+    recs.append(r); dropped.append(d)
+    cond = _first_stmt_if_break(s, r'for\s+i\s+in\s+0\.\.archive\.len\(\)\s*\{', span, 'visit_dir: for i in 0..archive.len()')
+    g, ren = _gate_rename(cond)
+    out.append(f'pub fn frag_exit_archive(p_buffered: bool, p_limit: u32, p_found: u32) -> bool {{ {g} }}')
+    r, d = frag_record('frag_exit_archive', 'src/searcher.rs', 'fn visit_dir / condition of the `if .. { break; }` that is the first statement of `for i in 0..archive.len()`',
+                       cond, g, ren, 'the loop')
+    recs.append(r); dropped.append(d)
+    out.append(H('frag_gates.kani.rs'))
+    out.append('}')
+    inj.new_file(FRAG_FILE, '\n'.join(out) + '\n')
+    return dict(functions=recs, dropped=dropped)
+
+
+# --------------------------------------------------------------------------------------------------
+# parse_cond(): BETWEEN desugaring
+# --------------------------------------------------------------------------------------------------
+def unit_between(inj, scratch):
+    frag_begin(inj)
+    s = src('src/parser.rs', scratch)
+    it = s.fn('parse_cond', impl='Parser')
+    a, b0, b1 = s.arm(r'Some\(Lexem::Operator\(s\)\)\s+if\s+s\.as_str\(\)\s*==\s*"between"', s.body_span(it),
+                      what='parse_cond: arm `Some(Lexem::Operator(s)) if s.as_str() == "between"`', on_text=True)
+    ms = s.find_all(r'match\s+not\s*\{', (b0, b1))
+    if len(ms) != 3:
+        raise AnchorLost(f'parse_cond between arm: expected 3 `match not {{..}}` expressions, found {len(ms)}')
+    exprs = []
+    for m in ms:
+        o = m.end() - 1
+        c = s.match_close(o)
+        exprs.append(dedent(s.text[m.start():c + 1]))
+    # which constructor receives which: Expr::op(left.clone().unwrap(), <0>, left_between..), Expr::op(left.unwrap(), <1>, right_between..), logical_op(.., <2>, ..)
+    arm = s.text[b0:b1]
+    shape = re.sub(r'\s+', '', s.mask[b0:b1]).replace(',)', ')')
+    order_ok = re.search(r'letleft_expr=Expr::op\(left\.clone\(\)\.unwrap\(\),matchnot\{.*?\},left_between\.unwrap\(\)\);'
+                         r'letright_expr=Expr::op\(left\.unwrap\(\),matchnot\{.*?\},right_between\.unwrap\(\)\);'
+                         r'Ok\(Some\(Expr::logical_op\(left_expr,matchnot\{.*?\},right_expr\)\)\)', shape)
+    if not order_ok:
+        raise AnchorLost('parse_cond between arm: operand wiring (left >= low, left <= high) changed shape')
+    text = f'''pub mod between {{
+use super::*;
+use super::cmp::*;
+pub fn frag_between(not: bool) -> (Op, LogicalOp, Op) {{
+    let low_op = {exprs[0]};
+    let high_op = {exprs[1]};
+    let lop = {exprs[2]};
+    (low_op, lop, high_op)
+}}
+{H('frag_between.kani.rs')}
+}}
+'''
+    inj.new_file(FRAG_FILE, text)
+    r, d = frag_record('frag_between', 'src/parser.rs', 'fn parse_cond / the three `match not {..}` expressions of the "between" arm (operand wiring checked by shape)',
+                       '\n'.join(exprs), '\n'.join(exprs), [], 'operand parsing (parse_add_sub), Expr construction')
+    return dict(functions=[r], dropped=[d])
+
+
+def unit_operators(inj, scratch):
+    rel = 'src/operators.rs'
+    s = src(rel, scratch)
+    inj.contract(rel, 'negate', ['kani::ensures(|r: &Op| verif_kani::spec_negation_pair(op, *r))'], impl='Op')
+    inj.append(rel, H('operators.kani.rs'))
+    inj.prepend('src/main.rs', '#![cfg_attr(kani, recursion_limit = "512")]')
+    return dict(functions=[fn_record(s, 'negate', 'K', impl='Op'),
+                           fn_record(s, 'from_with_not', 'K', impl='Op', how='whole function; postcondition asserted in an appended harness on concrete spellings')],
+                dropped=[])
+
+
+# --------------------------------------------------------------------------------------------------
+# exec_search(): exit status mapping; get_mean(): the division; ArithmeticOp::calc(): the operator table
+# --------------------------------------------------------------------------------------------------
+def unit_status(inj, scratch):
+    frag_begin(inj)
+    s = src('src/main.rs', scratch)
+    it = s.fn('exec_search')
+    m = s.find_one(r'match\s+error_count\s*\{', s.body_span(it), what='exec_search: match error_count {')
+    c = s.match_close(m.end() - 1)
+    t = dedent(s.text[m.start():c + 1])
+    # the Err arm: `Err(err) => { error_message(..); 2 }`
+    a, b0, b1 = s.arm(r'Err\(err\)', s.body_span(it), what='exec_search: Err(err) arm')
+    tail = re.sub(r'\s+', ' ', s.mask[b0:b1])
+    mm = re.search(r';\s*(\d+)\s*\}$', tail)
+    if not mm:
+        raise AnchorLost('exec_search: Err arm does not end in a literal status')
+    err_status = mm.group(1)
+    text = f'''pub mod status {{
+use super::*;
+pub fn frag_status(error_count: i32) -> u8 {{ {t} }}
+pub const FRAG_PARSE_ERROR_STATUS: u8 = {err_status};
+#[kani::proof]
+fn c10_status() {{
+    let n: i32 = kani::any();
+    let st = frag_status(n);
+    kani::cover!(true);
+    assert!(st == if n == 0 {{ 0 }} else {{ 1 }}, "OBL C10.status: 0 iff no error, else 1");
+    assert!(FRAG_PARSE_ERROR_STATUS == 2, "OBL C10.status: a query rejected by the parser exits with status 2");
+}}
+}}
+'''
+    inj.new_file(FRAG_FILE, text)
+    r, d = frag_record('frag_status', 'src/main.rs', 'fn exec_search / `match error_count {..}` and the literal closing the `Err(err)` arm',
+                       t, t, [], 'Searcher construction, list_search_results().unwrap(), error_message')
+    return dict(functions=[r], dropped=[d])
+
+
+def unit_mean(inj, scratch):
+    frag_begin(inj)
+    s = src('src/function.rs', scratch)
+    it = s.fn('get_mean')
+    body = s.text[it['open'] + 1:it['close']]
+    mbody = s.mask[it['open'] + 1:it['close']]
+    # tail expression = text after the last ';'
+    k = mbody.rfind(';')
+    tail = body[k + 1:].strip()
+    lets = re.sub(r'\s+', ' ', mbody[:k + 1]).strip()
+    if lets != 'let sum = get_buffer_sum(raw_output_buffer, buffer_key); let size = raw_output_buffer.len();':
+        raise AnchorLost(f'get_mean: leading statements changed shape: {lets!r}')
+    if not tail:
+        raise AnchorLost('get_mean: no tail expression')
+    text = f'''pub mod mean {{
+use super::*;
+pub fn frag_mean(sum: usize, size: usize) -> f64 {{ {tail} }}
+#[kani::proof]
+fn c07_mean_real() {{
+    let sum: usize = kani::any(); let size: usize = kani::any();
+    // BOUNDED: the symbolic f64 divider makes CBMC time out beyond this domain (measured: sum < 2^16,
+    // size < 2^8 does not finish in 400 s; this domain takes ~3 s)
+    kani::assume(size > 0 && size <= 16 && sum < 256);
+    let got = frag_mean(sum, size);
+    kani::cover!(sum % size != 0);
+    // AVG = SUM / COUNT as a real number: both operands are exactly representable, so the correctly rounded
+    // quotient is `sum as f64 / size as f64`
+    assert!(got == (sum as f64) / (size as f64), "OBL C07.mean.real: AVG is SUM/COUNT as a real number (not truncated)");
+}}
+}}
+'''
+    inj.new_file(FRAG_FILE, text)
+    r, d = frag_record('frag_mean', 'src/function.rs', 'fn get_mean / tail expression (leading two `let`s checked by shape)',
+                       tail, tail, [], 'get_buffer_sum (proved separately under C07.sum), raw_output_buffer.len()')
+    return dict(functions=[r], dropped=[d])
+
+
+def unit_calc(inj, scratch):
+    frag_begin(inj)
+    s = src('src/operators.rs', scratch)
+    it = s.fn('calc', impl='ArithmeticOp')
+    m = s.find_one(r'match\s+&self\s*\{', s.body_span(it), what='ArithmeticOp::calc: match &self {')
+    c = s.match_close(m.end() - 1)
+    t = dedent(s.text[m.start():c + 1])
+    g = replace_exact(t, 'left.to_float()', 'l', 5)
+    g = replace_exact(g, 'right.to_float()', 'r', 5)
+    g = replace_exact(g, 'match &self', 'match &op', 1)
+    text = f'''pub mod calc {{
+use super::*;
+pub fn frag_calc(op: &ArithmeticOp, l: f64, r: f64) -> f64 {{ {g} }}
+fn same(a: f64, b: f64) -> bool {{ (a.is_nan() && b.is_nan()) || a.to_bits() == b.to_bits() }}
+// Symbolic f64 operands are out of reach: CBMC did not finish `same(l + r, l + r)` for two symbolic f64 in 120 s
+// (measured), and `%` (fmod) is not modelled at all. The operator dispatch is therefore checked on concrete
+// witness pairs whose five results are pairwise distinct - a BOUNDED stand-in, labelled as such.
+#[kani::proof]
+fn c15_calc_witnesses() {{
+    kani::cover!(true);
+    assert!(frag_calc(&ArithmeticOp::Add, 7.0, 2.0) == 9.0, "OBL C15.calc.table: left + right");
+    assert!(frag_calc(&ArithmeticOp::Subtract, 7.0, 2.0) == 5.0, "OBL C15.calc.table: left - right");
+    assert!(frag_calc(&ArithmeticOp::Multiply, 7.0, 2.0) == 14.0, "OBL C15.calc.table: left * right");
+    assert!(frag_calc(&ArithmeticOp::Divide, 7.0, 2.0) == 3.5, "OBL C15.calc.table: left / right");
+    assert!(frag_calc(&ArithmeticOp::Subtract, -1.5, 0.25) == -1.75, "OBL C15.calc.table: left - right (2)");
+    assert!(frag_calc(&ArithmeticOp::Divide, 1.0, 8.0) == 0.125, "OBL C15.calc.table: left / right (2)");
+    assert!(frag_calc(&ArithmeticOp::Multiply, -3.0, 0.5) == -1.5, "OBL C15.calc.table: left * right (2)");
+    assert!(frag_calc(&ArithmeticOp::Add, -3.0, 0.5) == -2.5, "OBL C15.calc.table: left + right (2)");
+}}
+}}
+'''
+    inj.new_file(FRAG_FILE, text)
+    r, d = frag_record('frag_calc', 'src/operators.rs', 'fn ArithmeticOp::calc / `match &self {..}`',
+                       t, g, ['left.to_float() -> l', 'right.to_float() -> r', '&self -> &op'], 'Variant boxing (to_float, from_float)')
+    return dict(functions=[r], dropped=[d])
